@@ -71,7 +71,7 @@ def check(ctx, replay=None):
         want = cold["names"]
         # first-run fates from the specification: every disassembler failure point and every kill point, tool missing, clean
         fates = ["ok", "missing"] + ["fail_after_%d" % i for i in range(NCHUNKS + 1)] + ["kill_after_%d" % i for i in range(NCHUNKS + 1)]
-        reps = 3 if th else 1
+        reps = 8 if th else 1
         for fate in fates:
             for rebuilt in (False, True):
                 for rep in range(reps):
